@@ -385,6 +385,15 @@ def _r6(repo: Repo, ctx) -> None:
     gf = repo.func(f'{QLC}.policies.get_rewrite_filter')
     ctx.saw(gf)
     g = CFG(gf.node)
+    # the facts below are stated over the function's own accumulators; when
+    # those are gone (kept in another structure) nothing can be decided
+    stored = {x.id for x in ast.walk(gf.node) if isinstance(x, ast.Name)
+              and isinstance(x.ctx, ast.Store)}
+    gone = {'allow', 'deny', 'filter_expr'} - stored
+    if gone:
+        raise AnalysisError(
+            f'C07.R6: get_rewrite_filter no longer keeps {sorted(gone)} as '
+            f'locals; the allow / deny facts cannot be decided')
     # (a) "no filter at all" is decided on the full policy list of the type
     nones = [n for n in g.nodes if n.kind == 'stmt' and isinstance(
         n.ast, ast.Return) and (n.ast.value is None or norm(n.ast.value)
